@@ -177,7 +177,7 @@ impl PollSys {
             timeout,
             timeout_us: timeout.saturating_mul(1000),
             cap: cap_for(timeout, cap_mult),
-            pauses: if WRAP16.load(Ordering::Relaxed) { vec![(1 << 16) - 2, 1 << 16, 1 << 20, (1 << 32) - 2, 1 << 32] } else { vec![1 << 20, (1 << 32) - 2, 1 << 32] },
+            pauses: if WRAP16.load(Ordering::Relaxed) { vec![998, 1000, (1 << 16) - 2, 1 << 16, (1 << 20) + 100, (1 << 32) - 2, 1 << 32] } else { vec![998, 1000, (1 << 20) + 100, (1 << 32) - 2, 1 << 32] },
             storms: Vec::new(),
             pump_cycles: Vec::new(),
             pump_reps: 300,
@@ -898,6 +898,11 @@ fn run_observer(chk: &xs::Check, tier: xs::Tier, pid: &'static str, report: PRep
                 continue;
             }
             let mut sys = PollSys::new(pid, c, t, 1, &v3, true, report).with_timeout_us(t_us);
+            if !tier.thorough() && !(t_us == 2000 && c == channels[0]) {
+                // quick tier: the whole-second pauses (and the age classes they create) only in one
+                // exploration per check
+                sys.pauses.retain(|p| *p != 998 && *p != 1000);
+            }
             if c == channels[0] {
                 sys.storms = vec![(256, false), (65536, false), (65536, true)];
                 if t_us == 0 || t_us == 2000 {
